@@ -243,7 +243,25 @@ func (fs *FS) ReadDir(name string) ([]hackpadfs.DirEntry, error) {
 		return nil, pathErr
 	}
 	entries, err := os.ReadDir(name)
-	return entries, fs.wrapErr(err)
+	return fs.wrapDirEntries(entries), fs.wrapErr(err)
+}
+
+// dirEntry reports the error of Info() in terms of the caller's path names, like every other error of this FS
+type dirEntry struct {
+	hackpadfs.DirEntry
+	fs *FS
+}
+
+func (d dirEntry) Info() (hackpadfs.FileInfo, error) {
+	info, err := d.DirEntry.Info()
+	return info, d.fs.wrapErr(err)
+}
+
+func (fs *FS) wrapDirEntries(entries []hackpadfs.DirEntry) []hackpadfs.DirEntry {
+	for i := range entries {
+		entries[i] = dirEntry{DirEntry: entries[i], fs: fs}
+	}
+	return entries
 }
 
 // ReadFile implements hackpadfs.ReadFile
